@@ -71,7 +71,7 @@ func register(r *core.Rule) { registry = append(registry, r) }
 // that the rule files keep the property they were written for).
 var extraProps = map[string][]string{
 	// C09 (linearizable Raft store): the per-server state is one copy shared by the five archetypes, under 2PL
-	"RAFT-WIRING": {"C09"}, "LS-2PL": {"C09"}, "LS-CAP1": {"C09"},
+	"RAFT-WIRING": {"C09"}, "LS-2PL": {"C09", "C01"}, "LS-CAP1": {"C09"}, // C01: a shared cell is ended only by the handle that holds it
 	// C02: the driver's part of a step (what a critical section's outcome leads to) belongs to "takes exactly the steps"
 	"CS-ORDER": {"C02", "C18", "C17"},
 	// C03: `=` is an operator too - equality of the value kinds is decided under "operators evaluate as TLA+ defines"
@@ -84,6 +84,10 @@ var extraProps = map[string][]string{
 	// C06: the mailboxes of one node are elements of an IncMap, which commits / aborts the elements its key list names
 	"MB-CONN-DROP": {"C17"}, // a connection closed after a failed exchange but still held is closed again by Close: Run's clean-up reports an error
 	"HASHMAP-KEYS": {"C06", "C02"}, "HASHMAP-EQ": {"C06"},
+	// C02: "the same variable updates" - the values a step assigns are computed by the operator library, so the rules that
+	// decide what the built-in operators compute (C03) decide a necessary part of C02 as well
+	"OVERRIDE-DIR": {"C02"}, "OP-DECISION": {"C02"}, "OP-RELATION": {"C02"}, "DIVMOD-FLOOR": {"C02"}, "SEQ-BOUNDS": {"C02"},
+	"INDEX-BASE": {"C02"}, "FUNC-DECISION": {"C02"}, "SELECT-DECISION": {"C02"}, "ARITH-CHECKED": {"C02"},
 	// C04: the procedure variables, .stack and .pc are local resources; Return + Call write them several times in one section
 	"SNAPSHOT-ONCE": {"C04"}, "LOCAL-RES": {"C04"},
 }
